@@ -8,10 +8,10 @@
 #include "mcx/arena.h"
 using namespace Avoid; using namespace std;
 static mcx::Ctx ctx;
-enum { ADD_SHAPE0, ADD_SHAPE1, MOVE0, MOVE1, DEL0, DEL1, ADD_PIN0, ADD_JUNC, MOVE_JUNC, DEL_JUNC, ADD_CONN_PT, ADD_CONN_PIN, ADD_CONN_JUNC, ADD_CONN2, SET_END, DEL_CONN, SET_OPT, REG_HYPER, PROCESS, NOPS };
-static const char *NAMES[] = {"addShape0", "addShape1", "moveShape0", "moveShape1", "deleteShape0", "deleteShape1", "addPin(shape0)", "addJunction", "moveJunction", "deleteJunction", "addConn(point,point)", "addConn(shape0.pin,point)", "addConn(junction,point)", "addConn2(point,point)", "setDestEndpoint(conn)", "deleteConnector(conn)", "setRoutingOption/Parameter", "registerHyperedgeForRerouting(junction)", "processTransaction"};
+enum { ADD_SHAPE0, ADD_SHAPE1, MOVE0, MOVE1, DEL0, DEL1, ADD_PIN0, ADD_JUNC, MOVE_JUNC, DEL_JUNC, ADD_CONN_PT, ADD_CONN_PIN, ADD_CONN_JUNC, ADD_CONN2, SET_END, DEL_CONN, SET_OPT, REG_HYPER, PROCESS, SET_CKPT, CLR_CKPT, RESIZE0, SPLIT, FIX_EXISTING, FIX_ROUTE, CLEAR_FIXED, INVALIDATE, NOPS };
+static const char *NAMES[] = {"addShape0", "addShape1", "moveShape0", "moveShape1", "deleteShape0", "deleteShape1", "addPin(shape0)", "addJunction", "moveJunction", "deleteJunction", "addConn(point,point)", "addConn(shape0.pin,point)", "addConn(junction,point)", "addConn2(point,point)", "setDestEndpoint(conn)", "deleteConnector(conn)", "setRoutingOption/Parameter", "registerHyperedgeForRerouting(junction)", "processTransaction", "setRoutingCheckpoints", "clearRoutingCheckpoints", "resizeShape0", "splitAtSegment(1)", "setFixedExistingRoute", "setFixedRoute", "clearFixedRoute", "makePathInvalid"};
 struct World {
-    Router *r; ShapeRef *s[2]; JunctionRef *j; ConnRef *c, *c2; bool pin0, pendAdd[2], pendDel[2], jPendAdd, jPendDel, cOnJunc, cOnPin; int opt;
+    Router *r; ShapeRef *s[2]; JunctionRef *j; ConnRef *c, *c2; bool pin0, pendAdd[2], pendDel[2], jPendAdd, jPendDel, cOnJunc, cOnPin, cRouted = false, cFixed = false; int opt; JunctionRef *j2 = nullptr; ConnRef *c3 = nullptr;
     World(int mode, bool trans) { r = new Router(mode); r->setTransactionUse(trans); s[0] = s[1] = nullptr; j = nullptr; c = c2 = nullptr; pin0 = false; pendAdd[0] = pendAdd[1] = pendDel[0] = pendDel[1] = jPendAdd = jPendDel = cOnJunc = cOnPin = false; opt = 0; }
     bool tx() { return r->transactionUse(); }
     // false = the operation is not legal in this state (documented preconditions only)
@@ -28,11 +28,19 @@ struct World {
         case ADD_CONN_PIN: { if (c || !s[0] || !pin0 || pendDel[0]) return false; c = new ConnRef(r, ConnEnd(s[0], 1), ConnEnd(Point(120, 45))); cOnPin = true; return true; }
         case ADD_CONN_JUNC: { if (c || !j || jPendDel) return false; c = new ConnRef(r, ConnEnd(j), ConnEnd(Point(120, 45))); cOnJunc = true; return true; }
         case ADD_CONN2: { if (c2) return false; c2 = new ConnRef(r, ConnEnd(Point(60, 0)), ConnEnd(Point(60, 120))); return true; }
-        case SET_END: { if (!c) return false; c->setDestEndpoint(ConnEnd(Point(0, 100))); return true; }
-        case DEL_CONN: { if (!c) return false; r->deleteConnector(c); c = nullptr; cOnJunc = cOnPin = false; return true; }
+        case SET_END: { if (!c || cFixed) return false; cRouted = false; c->setDestEndpoint(ConnEnd(Point(0, 100))); return true; }
+        case DEL_CONN: { if (!c) return false; r->deleteConnector(c); c = nullptr; cOnJunc = cOnPin = false; cRouted = cFixed = false; return true; }
         case SET_OPT: { opt++; if (opt % 2) { r->setRoutingOption(nudgeOrthogonalTouchingColinearSegments, true); r->setRoutingParameter(shapeBufferDistance, 4); } else { r->setRoutingParameter(segmentPenalty, 25); r->setRoutingOption(improveHyperedgeRoutesMovingAddingAndDeletingJunctions, true); } return true; }
         case REG_HYPER: { if (!j || jPendAdd || jPendDel || !cOnJunc) return false; return false; /* needs >=3 terminals; covered by the C12 alphabet replayed under sanitizers */ }
-        case PROCESS: { r->processTransaction(); for (int i = 0; i < 2; i++) { pendAdd[i] = false; if (pendDel[i]) { s[i] = nullptr; pendDel[i] = false; if (i == 0) { pin0 = false; cOnPin = false; } } } jPendAdd = false; if (jPendDel) { j = nullptr; jPendDel = false; cOnJunc = false; } return true; }
+        case SET_CKPT: { if (!c) return false; std::vector<Checkpoint> v; v.push_back(Checkpoint(Point(90, 100))); c->setRoutingCheckpoints(v); cRouted = !tx() && cRouted; return true; }
+        case CLR_CKPT: { if (!c) return false; std::vector<Checkpoint> v; c->setRoutingCheckpoints(v); return true; }
+        case RESIZE0: { if (!s[0] || pendDel[0]) return false; Rectangle rect(Point(15, 20), Point(45, 70)); r->moveShape(s[0], rect); return true; }
+        case SPLIT: { if (!c || !cRouted || j2 || cFixed) return false; if (c->displayRoute().size() < 2) return false; std::pair<JunctionRef *, ConnRef *> pr = c->splitAtSegment(1); j2 = pr.first; c3 = pr.second; cRouted = false; return true; }
+        case FIX_EXISTING: { if (!c || !cRouted) return false; if (c->displayRoute().size() < 2) return false; c->setFixedExistingRoute(); cFixed = true; return true; }
+        case FIX_ROUTE: { if (!c) return false; PolyLine pl(3); pl.ps[0] = Point(0, 40); pl.ps[1] = Point(0, 110); pl.ps[2] = Point(120, 110); c->setFixedRoute(pl); cFixed = true; return true; }
+        case CLEAR_FIXED: { if (!c || !cFixed) return false; c->clearFixedRoute(); cFixed = false; cRouted = false; return true; }
+        case INVALIDATE: { if (!c) return false; c->makePathInvalid(); return true; }
+        case PROCESS: { r->processTransaction(); cRouted = (c != nullptr); for (int i = 0; i < 2; i++) { pendAdd[i] = false; if (pendDel[i]) { s[i] = nullptr; pendDel[i] = false; if (i == 0) { pin0 = false; cOnPin = false; } } } jPendAdd = false; if (jPendDel) { j = nullptr; jPendDel = false; cOnJunc = false; } return true; }
         }
         return false;
     }
@@ -44,12 +52,12 @@ static long run_seq(const vector<int> &ops, int mode, bool trans, bool &legal, s
     return mcx::heap_live_system() - before;
 }
 static void phase(int depth, int mode, bool trans) {
-    ctx.phase(mcx::fmt("Router histories depth=%d mode=%s transactions=%d over %d operations (+ ~Router)", depth, mode == OrthogonalRouting ? "orthogonal" : "polyline", trans, NOPS));
+    ctx.phase(mcx::fmt("Router histories depth=%d mode=%s transactions=%d over %d operations (+ ~Router)", depth, mode == OrthogonalRouting ? "orthogonal" : "polyline", trans, (int)NOPS));
     vector<int> idx(depth, 0);
     do {
         if (ctx.stopped()) break;
         // cheap legality pre-filter on the first operation to cut enumeration: nothing can be moved/deleted in an empty router
-        if (idx[0] == MOVE0 || idx[0] == MOVE1 || idx[0] == DEL0 || idx[0] == DEL1 || idx[0] == ADD_PIN0 || idx[0] == MOVE_JUNC || idx[0] == DEL_JUNC || idx[0] == SET_END || idx[0] == DEL_CONN || idx[0] == REG_HYPER || idx[0] == ADD_CONN_PIN || idx[0] == ADD_CONN_JUNC) continue;
+        if (idx[0] == MOVE0 || idx[0] == MOVE1 || idx[0] == DEL0 || idx[0] == DEL1 || idx[0] == ADD_PIN0 || idx[0] == MOVE_JUNC || idx[0] == DEL_JUNC || idx[0] == SET_END || idx[0] == DEL_CONN || idx[0] == REG_HYPER || idx[0] == ADD_CONN_PIN || idx[0] == ADD_CONN_JUNC || idx[0] >= SET_CKPT) continue;
         if (!ctx.next()) continue;
         string desc = mcx::fmt("%s transactions=%d:", mode == OrthogonalRouting ? "orthogonal" : "polyline", trans); for (int o : idx) desc += string(" ") + NAMES[o]; desc += " ~Router";
         ctx.announce(desc);
